@@ -7,6 +7,8 @@
    c19_driver.py keyboard < params.json    pause / single step / 50 steps / resume + pulls via the web server vs run without a server
    c19_driver.py coresident < params.json  final bits of simulation B alone / after others / next to others in threads / served (one fresh process each)
    c19_driver.py hammer  < params.json     per integrator type: T simulations of the same type at the same time in T threads vs sequentially
+   c19_driver.py history < params.json     remove -> observe (save / copy / serve) -> add: all continuations equal the unobserved run
+   c19_driver.py latestart < params.json   server started from a second thread while integrate() is running
    c19_driver.py teardown < params.json    create / serve / free (and stop+restart the server) under continuous client load
    c19_driver.py fdclose < params.json     save/load of one simulation while another simulation's server thread closes descriptors twice
    c19_driver.py w512    < params.json     (avx512 build) two WHFast512 simulations alternated step by step vs separately
@@ -870,6 +872,95 @@ def mode_compress(p):
     return {"cases": cases}
 
 
+def mode_history(p):
+    """observation must not change a history in which the particle number changes: IAS15 (or any integrator) -> integrate -> remove a
+    particle -> [steps] -> observe by save / copy / serve / nothing -> add a particle -> integrate.  The original after each kind of
+    observation, and the restored / copied / served simulation continued the same way, must equal the UNOBSERVED run bitwise."""
+    wd = enter_workdir()
+    rng = random.Random(p["seed"])
+    spec = p["spec"]
+    def prep():
+        sim = build(spec)
+        sim.integrate(p["t1"])
+        sim.remove(p["remove_index"])
+        if p["steps_between"]:
+            sim.steps(p["steps_between"])
+        return sim
+    def finish(sim):
+        sim.add(m=p["add_m"], a=p["add_a"], e=0.05, f=1.0, primary=sim.particles[0])
+        sim.integrate(p["t2"])
+        return particle_bits(sim)
+    unobserved = finish(prep())
+    res = {}
+    s1 = prep(); path = os.path.join(wd, "h.bin"); s1.save_to_file(path, delete_file=True); r1 = rebound.Simulation(path)
+    res["original_after_save"] = finish(s1) == unobserved; res["restored"] = finish(r1) == unobserved
+    s2 = prep(); c2 = s2.copy()
+    res["original_after_copy"] = finish(s2) == unobserved; res["copy"] = finish(c2) == unobserved
+    s3 = prep(); port = start_server_robust(s3, rng); body = fetch(port); s3.stop_server()
+    res["original_after_serve"] = finish(s3) == unobserved; res["served_snapshot"] = finish(rebound.Simulation(body)) == unobserved
+    os.chdir("/"); shutil.rmtree(wd, ignore_errors=True)
+    return {"agree": res, "all_agree": all(res.values())}
+
+
+def mode_latestart(p):
+    """the server is started from a SECOND thread while reb_simulation_integrate is already running on a server-less simulation; snapshots
+    pulled afterwards must be step-boundary states and continue bit-for-bit.  Snapshots of the very step during which the server came up
+    are counted separately (that step began before the server existed)."""
+    wd = enter_workdir()
+    rng = random.Random(p["seed"])
+    spec = p["spec"]; tmax = p["tmax"]; sleep_s = p["sleep_ms"] / 1000.0
+    def slow(sp): time.sleep(sleep_s)
+    ref = build(spec); ref.additional_forces = lambda sp: None
+    keys = set()
+    ref.heartbeat = lambda sp: keys.add(phys_key(sp.contents))
+    ref.integrate(tmax, exact_finish_time=0); keys.add(phys_key(ref)); final = particle_bits(ref)
+    sim = build(spec); sim.additional_forces = slow
+    info = {"start_steps_done": None, "port": None, "err": None}
+    cl = [None]
+    def starter():
+        try:
+            t0 = time.time()
+            while int(sim.steps_done) < p["start_after_steps"] and time.time() - t0 < 30: time.sleep(0.0005)
+            time.sleep(rng.uniform(0.1, 0.9) * sleep_s * p.get("calls_per_step", 1))       # somewhere inside a step
+            port = free_port(rng)
+            cl[0] = start_clients(port, wd, [0.0] * p["clients"], [0.0] * p["clients"], False)    # clients poll until the port answers
+            time.sleep(p.get("client_warmup", 0.5))
+            info["start_steps_done"] = int(sim.steps_done)
+            sim.start_server(port=port)
+            info["port"] = port
+        except Exception as e:
+            info["err"] = repr(e)
+    th = threading.Thread(target=starter); th.start()
+    sim.integrate(tmax, exact_finish_time=0)
+    th.join(60)
+    got = []
+    if cl[0]:
+        got, _ = stop_clients(*cl[0])
+    try: sim.stop_server()
+    except Exception: pass
+    res = {"served": len(got), "start_steps_done": info["start_steps_done"], "err": info["err"], "unparsable": 0, "mid_step_in_start_step": 0,
+           "mid_step_later": 0, "examples": [], "continued": 0, "continuation_mismatch": 0, "trajectory_equal": particle_bits(sim) == final,
+           "total_steps": int(sim.steps_done)}
+    budget = p.get("continue", 4)
+    for b in got:
+        try:
+            s = rebound.Simulation(b); k = phys_key(s)
+        except Exception:
+            res["unparsable"] += 1; continue
+        if k not in keys:
+            if info["start_steps_done"] is not None and int(s.steps_done) <= info["start_steps_done"]:
+                res["mid_step_in_start_step"] += 1
+            else:
+                res["mid_step_later"] += 1
+                if len(res["examples"]) < 3: res["examples"].append({"t": s.t, "steps_done": int(s.steps_done)})
+        elif budget > 0 and s.t < tmax:
+            budget -= 1
+            s.integrate(tmax, exact_finish_time=0); res["continued"] += 1
+            if particle_bits(s) != final: res["continuation_mismatch"] += 1
+    os.chdir("/"); shutil.rmtree(wd, ignore_errors=True)
+    return res
+
+
 def mode_teardown(p):
     """life cycle under load: simulations with a running server and clients fetching continuously are freed (Python: del ->
     reb_simulation_free_pointers -> reb_simulation_stop_server) or have their server stopped and restarted; a crash or hang of this
@@ -974,7 +1065,7 @@ if __name__ == "__main__":
     if mode == "client":
         mode_client(); sys.stdout.flush(); os._exit(0)
     params = json.load(sys.stdin)
-    res = {"conc": mode_conc, "server": mode_server, "torn": mode_torn, "w512": mode_w512, "fdclose": mode_fdclose, "steps": mode_steps, "keyboard": mode_keyboard, "coresident": mode_coresident, "teardown": mode_teardown, "hammer": mode_hammer, "compress": mode_compress}[mode](params)
+    res = {"conc": mode_conc, "server": mode_server, "torn": mode_torn, "w512": mode_w512, "fdclose": mode_fdclose, "steps": mode_steps, "keyboard": mode_keyboard, "coresident": mode_coresident, "teardown": mode_teardown, "hammer": mode_hammer, "compress": mode_compress, "history": mode_history, "latestart": mode_latestart}[mode](params)
     print(json.dumps(res))
     sys.stdout.flush()
     os._exit(0)
